@@ -95,7 +95,114 @@ Example C13_demo :
   c_generates rs_sharp w_sharp_lower (1 * 1 * (1#2) * 1)%Q.
 Proof. exact demo_promise. Qed.
 
+(* ---- the translated source (translator tie, added in the second session).
+   gen/Scorer_gen.v `py_pcfg_scorer_parse` is the line-by-line image of
+   PCFGPasswordScorer.parse (lib_scorer/pcfg_password_scorer.py), written on
+   every run by harness/translate_scorer.py (ast only, fail closed) over the
+   runtime ScorerRt.v: the detector pipeline in the order of the source with
+   the section list threaded through the calls that edit it, the e-mail /
+   website return, the product inside `try .. except KeyError`, the rebuild
+   check, the cut-off classification.  [c_detectors] are the detectors of
+   Detect.v / Segment.v with the constants of this run; [scorer_obj] is the
+   scorer object (tables, multi-word detector, cut-off, OMEN scorer as an
+   oracle). *)
+From Pcfg Require Import ScorerRt ScorerGenProofs ScorerGenInst.
+From PcfgGen Require Import Scorer_gen.
+
+(* for EVERY probability type and operations (binary64 with the multiplication
+   order of the code as well as Q; pleb / peqb: `<=` / `==`, not used by the
+   current source), scorer object and string: what the translated parse
+   returns, seen as (e / w / other, probability), is Scorer.score of the model,
+   and it never raises where the model does not *)
+Theorem C13_source_parse_is_model :
+  forall (P : Type) (pmul : P -> P -> P) (p0 p1 : P) (pltb pleb peqb : P -> P -> bool) (self : scorer_obj P) (s : str),
+  res_map (view P) (py_pcfg_scorer_parse P pmul p0 p1 pltb pleb peqb c_upper c_detectors self s) =
+  lift (score P pmul p0 p1 scorer_rebuild_check c_upper (parse_s (multiword_detector self)) (rs_of self) s).
+Proof. exact source_parse_is_model. Qed.
+
+(* the whole tuple: (password, category letter, probability, OMEN score) is
+   parse_result of the model's segmentation, b being the outcome of the
+   classification cut-off (it decides between the letters o and p only) *)
+Theorem C13_source_parse_result :
+  forall (P : Type) (pmul : P -> P -> P) (p0 p1 : P) (pltb pleb peqb : P -> P -> bool) (self : scorer_obj P) (s : str),
+  exists r b, parse_s (multiword_detector self) s = POk r /\
+              py_pcfg_scorer_parse P pmul p0 p1 pltb pleb peqb c_upper c_detectors self s = Ok (parse_result P pmul p0 p1 c_upper b self s r).
+Proof. exact source_parse_result. Qed.
+
+(* the cut-off classification decides between the letters o and p only: the
+   probability is the model's whatever the limit, the OMEN score and the form
+   of the cut-off test are *)
+Theorem C13_source_cutoff_only_letter :
+  forall (P : Type) (pmul : P -> P -> P) (p0 p1 : P) (pltb pleb peqb : P -> P -> bool) (self : scorer_obj P) s pw c p o,
+  py_pcfg_scorer_parse P pmul p0 p1 pltb pleb peqb c_upper c_detectors self s = Ok (pw, c, p, o) ->
+  pw = s /\ o = omen_parse (omen self) s /\
+  score P pmul p0 p1 scorer_rebuild_check c_upper (parse_s (multiword_detector self)) (rs_of self) s = Some (cat_of_str c, p) /\
+  (c = s_e \/ c = s_w \/ c = s_o \/ c = s_p).
+Proof. exact source_parse_shape. Qed.
+
+(* C13_pure over the source: two scorer objects with the same tables and the
+   same multi-word detector give every string the same class and probability
+   (the translator refuses every write to the object: the translated parse is
+   a function of its arguments) *)
+Theorem C13_source_pure :
+  forall (P : Type) (pmul : P -> P -> P) (p0 p1 : P) (pltb pleb peqb : P -> P -> bool) (self1 self2 : scorer_obj P) (s : str),
+  rs_of self1 = rs_of self2 -> multiword_detector self1 = multiword_detector self2 ->
+  res_map (view P) (py_pcfg_scorer_parse P pmul p0 p1 pltb pleb peqb c_upper c_detectors self1 s) =
+  res_map (view P) (py_pcfg_scorer_parse P pmul p0 p1 pltb pleb peqb c_upper c_detectors self2 s).
+Proof. exact source_pure. Qed.
+
+(* C13_email_website_zero over the source *)
+Theorem C13_source_email_website_zero :
+  forall (self : scorer_obj Q) s r, parse_s (multiword_detector self) s = POk r ->
+  (p_emails r <> [] ->
+   py_pcfg_scorer_parse Q Qmult 0%Q 1%Q Qltb Qleb Qeq_bool c_upper c_detectors self s = Ok (s, s_e, 0%Q, omen_parse (omen self) s)) /\
+  (p_emails r = [] -> p_urls r <> [] ->
+   py_pcfg_scorer_parse Q Qmult 0%Q 1%Q Qltb Qleb Qeq_bool c_upper c_detectors self s = Ok (s, s_w, 0%Q, omen_parse (omen self) s)).
+Proof. exact (source_email_website_zero Q Qmult 0%Q 1%Q Qltb Qleb Qeq_bool). Qed.
+
+(* C13_missing_is_zero over the source *)
+Theorem C13_source_missing_is_zero : forall (self : scorer_obj Q) s r,
+  parse_s (multiword_detector self) s = POk r ->
+  (base_get Q (count_base_structures self) (p_base r) = None \/
+   (exists w, In w (p_walks r) /\ lookup_len Q 0%Q (count_keyboard self) w = None) \/
+   (exists w, In w (p_alpha r) /\ lookup_len Q 0%Q (count_alpha self) w = None) \/
+   (exists w, In w (p_masks r) /\ lookup_len Q 0%Q (count_alpha_masks self) w = None) \/
+   (exists w, In w (p_digits r) /\ lookup_len Q 0%Q (count_digits self) w = None) \/
+   (exists w, In w (p_other r) /\ lookup_len Q 0%Q (count_other self) w = None)) ->
+  exists pw c p o, py_pcfg_scorer_parse Q Qmult 0%Q 1%Q Qltb Qleb Qeq_bool c_upper c_detectors self s = Ok (pw, c, p, o) /\ (p == 0)%Q.
+Proof. exact source_missing_is_zero. Qed.
+
+(* C13_promise_derivation over the source: a non-zero probability returned by
+   the translated parse is the probability of a derivation of s *)
+Theorem C13_source_promise_derivation : forall (self : scorer_obj Q) s pw c p o, s <> [] ->
+  py_pcfg_scorer_parse Q Qmult 0%Q 1%Q Qltb Qleb Qeq_bool c_upper c_detectors self s = Ok (pw, c, p, o) -> ~ (p == 0)%Q ->
+  c_generates (rs_of self) s p.
+Proof. exact source_promise_derivation. Qed.
+
+(* C13_promise_emitted over the source: ... of a pre-terminal the guesser's run emits *)
+Theorem C13_source_promise_emitted : forall (self : scorer_obj Q) s pw c p o, s <> [] ->
+  py_pcfg_scorer_parse Q Qmult 0%Q 1%Q Qltb Qleb Qeq_bool c_upper c_detectors self s = Ok (pw, c, p, o) -> ~ (p == 0)%Q ->
+  wf (guesser_view (rs_of self)) -> forall pop, pop_ok_okb pop ->
+  exists it : item QProb,
+    In it (emitted (Next.run pop (guesser_view (rs_of self)) (total (guesser_view (rs_of self))) (start (guesser_view (rs_of self))))) /\
+    In s (denote c_upper (segs_of (rs_of self) it)) /\ (iprob it == p)%Q.
+Proof. exact source_promise_emitted. Qed.
+
+(* the hypotheses are satisfiable: the sharp-s ruleset in a scorer object with
+   the default cut-off; the lower-case letter scores 1/2 (letter p), the
+   capital one 0 (letter o) *)
+Example C13_source_demo :
+  py_pcfg_scorer_parse Q Qmult 0%Q 1%Q Qltb Qleb Qeq_bool c_upper c_detectors self_sharp w_sharp_lower
+    = Ok (w_sharp_lower, s_p, (1 * 1 * (1#2) * 1)%Q, -1) /\
+  py_pcfg_scorer_parse Q Qmult 0%Q 1%Q Qltb Qleb Qeq_bool c_upper c_detectors self_sharp w_sharp = Ok (w_sharp, s_o, 0%Q, -1) /\
+  c_generates (rs_of self_sharp) w_sharp_lower (1 * 1 * (1#2) * 1)%Q.
+Proof. exact source_demo. Qed.
+
 Print Assumptions C13_promise_Q.
 Print Assumptions C13_promise_emitted.
 Print Assumptions C13_missing_is_zero.
 Print Assumptions C13_refuted_case_sharp_s.
+Print Assumptions C13_source_parse_is_model.
+Print Assumptions C13_source_promise_emitted.
+Print Assumptions C13_source_missing_is_zero.
+Print Assumptions C13_source_pure.
